@@ -174,10 +174,17 @@ def r3(ctx):
 def r4(ctx):
     b = ctx.fn(FNS[0])
     gets = {}
-    for bi, t in b.calls(r"HashMap::<K, V, S, A>::get$"):
+    glocals = {"authorization": set(), "X-Amz-Algorithm": set()}
+    has = {}  # dest local of contains_key(..) -> 'h' / 'q'
+    for bi, t in b.calls(r"HashMap::<K, V, S, A>::(get|contains_key)$"):
         kv, _ = const_str_of(b, t["args"][1])
-        gets[kv] = t["dest"]["local"]
-    if "authorization" not in gets or "X-Amz-Algorithm" not in gets:
+        if kv in glocals:
+            if t["callee"].endswith("::get"):
+                gets[kv] = t["dest"]["local"]
+                glocals[kv].add(t["dest"]["local"])
+            else:
+                has[t["dest"]["local"]] = "h" if kv == "authorization" else "q"
+    if not (glocals["authorization"] or "h" in has.values()) or not (glocals["X-Amz-Algorithm"] or "q" in has.values()):
         raise AnchorMissing("lookups of `authorization` and `X-Amz-Algorithm` in get_auth_parameters")
 
     def which(place):
@@ -185,20 +192,22 @@ def r4(ctx):
         a filtered or recomputed presence (e.g. "present and equal to AWS4-HMAC-SHA256") is not the documented rule."""
         sl = b.slice([place["local"]])
         passive = [c for c in sl.callee_names() if not re.search(r"HashMap::<K, V, S, A>::get$|CanonicalRequest::(headers|query_parameters)$", c)]
+        if place["local"] in has and not place["proj"]:
+            return has[place["local"]]
         if passive:
             return None
         fs = place_fields(place)
-        hs = [t for _, t in sl.calls if t["dest"]["local"] == gets["authorization"]]
-        qs = [t for _, t in sl.calls if t["dest"]["local"] == gets["X-Amz-Algorithm"]]
+        hs = [t for _, t in sl.calls if t["dest"]["local"] in glocals["authorization"]]
+        qs = [t for _, t in sl.calls if t["dest"]["local"] in glocals["X-Amz-Algorithm"]]
         if fs and fs[0] in ("0", "1") and hs and qs:
             # tuple (auth_header, sig_algs): field 0 / 1 -> resolve through the tuple aggregate
             for d in b.defs().get(place["local"], []):
                 if d["kind"] == "assign" and d["stmt"]["rv"]["k"] == "aggregate" and d["stmt"]["rv"].get("tuple"):
                     o = d["stmt"]["rv"]["ops"][int(fs[0])]
                     s2 = b.slice_op(o)
-                    if any(t["dest"]["local"] == gets["authorization"] for _, t in s2.calls):
+                    if any(t["dest"]["local"] in glocals["authorization"] for _, t in s2.calls):
                         return "h"
-                    if any(t["dest"]["local"] == gets["X-Amz-Algorithm"] for _, t in s2.calls):
+                    if any(t["dest"]["local"] in glocals["X-Amz-Algorithm"] for _, t in s2.calls):
                         return "q"
             return None
         if hs and not qs:
@@ -218,12 +227,15 @@ def r4(ctx):
         if c and c["kind"] == "call" and re.search(r"Option::<T>::is_(some|none)$", c["callee"]) and which({"local": root_local(b, c["term"]["args"][0]), "proj": []}):
             start = a
             break
+        if c and c["kind"] == "call" and c["term"]["dest"]["local"] in has:
+            start = a
+            break
     if start is None:
         for a in sorted(b.live_blocks()):
             c = b.cond_of_switch(a)
             if c and c["kind"] == "discr":
                 sl = b.slice([c["place"]["local"]])
-                if any(t["dest"]["local"] in (gets["authorization"], gets["X-Amz-Algorithm"]) for _, t in sl.calls):
+                if any(t["dest"]["local"] in (glocals["authorization"] | glocals["X-Amz-Algorithm"]) for _, t in sl.calls):
                     yield VIOL("C19-R4", "get_auth_parameters/carrier-presence-filtered", "carrier presence is decided on a value computed from the lookup (through %s), not on the presence of the Authorization header / X-Amz-Algorithm parameter itself: e.g. a non-SigV4 X-Amz-Algorithm next to an Authorization header is no longer refused" % [x for x in sl.callee_names() if "HashMap" not in x][:4], where=b.span_of_block(a))
                     return
         raise AnchorMissing("presence switch in get_auth_parameters")
@@ -237,6 +249,20 @@ def r4(ctx):
                 t = b.term(blk)
                 if t["k"] == "switch":
                     c = b.cond_of_switch(blk)
+                    if c and c["kind"] == "call" and c["term"]["dest"]["local"] in has:
+                        w = has[c["term"]["dest"]["local"]]
+                        val = bool(h if w == "h" else q)
+                        if c.get("neg"):
+                            val = not val
+                        nb = None
+                        for s_ in b.succ(blk):
+                            if b.truth_of_edge(blk, s_) is val:
+                                nb = s_
+                        if nb is None:
+                            res = ("unknown-switch", blk)
+                            break
+                        blk = nb
+                        continue
                     if c and c["kind"] == "call" and re.search(r"Option::<T>::is_(some|none)$", c["callee"]):
                         a0 = c["term"]["args"][0]
                         pl0 = op_place(a0)
@@ -266,7 +292,8 @@ def r4(ctx):
                     nxt = [bb for vv, bb in t["targets"] if vv == v]
                     blk = nxt[0] if nxt else t["otherwise"]
                     continue
-                if t["k"] == "call" and re.search(r"Option::<T>::is_(some|none)$", t.get("callee", "")) and t.get("target") is not None:
+                if t["k"] == "call" and re.search(r"Option::<T>::is_(some|none)$|HashMap::<K, V, S, A>::(get|contains_key)$|CanonicalRequest::(headers|query_parameters)$", t.get("callee", "")) and t.get("target") is not None \
+                        and not any(s_["k"] == "assign" and s_["rv"]["k"] == "aggregate" for s_ in b.blocks[blk]["stmts"]):
                     blk = t["target"]
                     continue
                 if t["k"] == "goto" and not b.blocks[blk]["stmts"]:
